@@ -79,6 +79,10 @@ LogLevels  == <<"debug", "warn", "error">>          \* default info is the fourt
 \* the catalyst package p1x is configured explicitly although it lies below the (possibly recursive) p1:
 \* it exists to give leaks a way out (DESIGN D5); the contract says nothing about its own mocks
 Unchecked == {"p1x"}
+\* packages listed explicitly below a recursive package, and what is discovered below them: the statement fixes
+\* their scalar parameters (own config, then the top level; discovered packages as their nearest configured recursive
+\* ancestor) but not whether the outer recursive package's MAP keys are merged in as well
+MapUnchecked == {"p1r", "p1rd", "p1re"}
 
 -----------------------------------------------------------------------------
 (* pseudo-random bits, all products stay below 2^31 *)
@@ -158,8 +162,11 @@ ChainOf(p) ==
     [] p \in MapParams \cup TDBuiltin -> <<"root", "p1", "p1A", "p1A1">>
     [] OTHER -> <<"env", "root", "p1", "p1A", "p1A1">>
 
+\* the nested recursive package gets its own marker in every second world that sets the outer one
+NestedNodes(dd) == IF "p1" \in dd.S /\ Cardinality(dd.S) % 2 = 0 THEN {"p1r"} ELSE {}
 SiblingOf(n) ==
   CASE n = "p1" -> {"p2"} [] n = "p1A" -> {"p1B", "p2A"} [] n = "p1A1" -> {"p1A2", "p1B1"} [] OTHER -> {}
+Counterparts(x) == SiblingOf(x) \cup (IF x = "p1" THEN {"p1r"} ELSE {})
 
 \* per-package parameters also written where they mean nothing (an interface `config`, a configs entry)
 NoiseNodes(dd) == IF dd.param \in PerPackage /\ Cardinality(dd.S) % 2 = 1 THEN {"p1A", "p1B1", "p2A", "p2C"} ELSE {}
@@ -194,7 +201,7 @@ ChainH(dd, n) ==
   IF n \in NoiseNodes(dd) THEN 1       \* all / recursive: true, a regex, a list -- anything that would show if it leaked
   ELSE IF n \notin SeqToSet(ch)
   THEN \* a sibling: differs from its counterpart
-       LET c == CHOOSE x \in dd.S : n \in SiblingOf(x) IN
+       LET c == CHOOSE x \in dd.S : n \in Counterparts(x) IN
        IF b > 1 THEN (IF Tier = "thorough" THEN Digit(dd.var, b, RankIn(ch, dd.S, c)) ELSE dd.var + RankIn(ch, dd.S, c)) + 1
        ELSE IF p \in MapParams THEN NodeIdx(n) % 4 ELSE dd.var + NodeIdx(n)
   ELSE IF b > 1
@@ -256,15 +263,15 @@ CarrierNodes(dd) ==
 Bg(profile, focus, rec) ==
   CASE profile = "mock" ->
          [root |-> [template |-> "root", all |-> TRUE] @@ ("require-template-schema-exists" :> FALSE),
-          p1 |-> IF rec THEN [recursive |-> TRUE] ELSE << >>]
+          p1 |-> IF rec THEN [recursive |-> TRUE] ELSE << >>, p1r |-> IF rec THEN [recursive |-> TRUE] ELSE << >>]
     [] profile = "template" ->
-         [root |-> [all |-> TRUE] @@ ("require-template-schema-exists" :> FALSE), p1 |-> IF rec THEN [recursive |-> TRUE] ELSE << >>]
+         [root |-> [all |-> TRUE] @@ ("require-template-schema-exists" :> FALSE), p1 |-> IF rec THEN [recursive |-> TRUE] ELSE << >>, p1r |-> IF rec THEN [recursive |-> TRUE] ELSE << >>]
     [] profile = "schema" ->
-         [root |-> [template |-> "root", all |-> TRUE], p1 |-> IF rec THEN [recursive |-> TRUE] ELSE << >>]
+         [root |-> [template |-> "root", all |-> TRUE], p1 |-> IF rec THEN [recursive |-> TRUE] ELSE << >>, p1r |-> IF rec THEN [recursive |-> TRUE] ELSE << >>]
     [] profile = "matryer" ->
-         [root |-> [template |-> "matryer", all |-> TRUE], p1 |-> IF rec THEN [recursive |-> TRUE] ELSE << >>]
+         [root |-> [template |-> "matryer", all |-> TRUE], p1 |-> IF rec THEN [recursive |-> TRUE] ELSE << >>, p1r |-> IF rec THEN [recursive |-> TRUE] ELSE << >>]
     [] profile = "testify" ->      \* template unset: the default
-         [root |-> [all |-> TRUE], p1 |-> IF rec THEN [recursive |-> TRUE] ELSE << >>]
+         [root |-> [all |-> TRUE], p1 |-> IF rec THEN [recursive |-> TRUE] ELSE << >>, p1r |-> IF rec THEN [recursive |-> TRUE] ELSE << >>]
     [] profile = "sources" ->
          [root |-> [template |-> "root", all |-> TRUE] @@ ("require-template-schema-exists" :> FALSE)
                    @@ ("include-interface-regex" :> {"A"})]      \* all + include: the run logs a warning
@@ -273,7 +280,8 @@ Bg(profile, focus, rec) ==
                    @@ (IF focus \in {"recursive", "exclude-subpkg-regex"} THEN [all |-> TRUE] ELSE << >>)
                    @@ (IF focus = "exclude-subpkg-regex" THEN [recursive |-> TRUE] ELSE << >>)
                    @@ (IF focus = "exclude-interface-regex" THEN ("include-interface-regex" :> {"A", "D", "E"}) ELSE << >>),
-          p1 |-> IF focus \in {"all", "include-interface-regex", "exclude-interface-regex"} THEN [recursive |-> TRUE] ELSE << >>]
+          p1 |-> IF focus \in {"all", "include-interface-regex", "exclude-interface-regex"} THEN [recursive |-> TRUE] ELSE << >>,
+          p1r |-> IF focus \in {"all", "include-interface-regex", "exclude-interface-regex"} THEN [recursive |-> TRUE] ELSE << >>]
 
 BgSet(bg, n, p) == n \in DOMAIN bg /\ p \in DOMAIN bg[n]
 
@@ -281,7 +289,7 @@ BgSet(bg, n, p) == n \in DOMAIN bg /\ p \in DOMAIN bg[n]
 \* accepts exactly the sids of the mocks the contract expects to be validated against it)
 SidNodes == {r.id : r \in {x \in NodeRecs : x.kind = "entry" \/ (x.kind = "iface" /\ EntryNodes(x.id) = {} /\ x.pkg \notin Unchecked)}}
 
-ChainFocusNodes(dd) == dd.S \cup (IF dd.sib THEN UNION {SiblingOf(n) : n \in dd.S} ELSE {}) \cup NoiseNodes(dd)
+ChainFocusNodes(dd) == dd.S \cup (IF dd.sib THEN UNION {SiblingOf(n) : n \in dd.S} ELSE {}) \cup NoiseNodes(dd) \cup NestedNodes(dd)
 
 ChainIsSet(dd, n, p) ==
   LET bg == Bg(ProfileOf(dd.param), dd.param, "p1" \in dd.S) IN
@@ -368,6 +376,7 @@ WellFormed(cfg) ==
 MockParams == PerMock \cup PerFile
 ExpectMock(cfg, m) ==
   [pkg |-> m.pkg, letter |-> m.letter, from |-> m.from, how |-> m.how, check |-> (m.pkg \notin Unchecked),
+   mapcheck |-> (m.pkg \notin MapUnchecked),
    eff |-> [p \in MockParams |-> Eff(cfg, p, m.from)],
    src |-> [p \in MockParams \ MapParams |-> SourceOf(cfg, p, m.from)],
    filedata |-> FileData(cfg, m)]
@@ -375,7 +384,7 @@ ExpectMock(cfg, m) ==
 ExpectPkg(cfg, p) ==
   [eff |-> [x \in PerPackage |-> EffScalar(cfg, x, p)],
    src |-> [x \in PerPackage |-> SourceOf(cfg, x, p)],
-   discovered |-> {s \in Subs[p] \ Configured : Discovered(cfg, p, s)}]
+   discovered |-> {s \in Subs[p] \ Configured : DiscoveredBy(cfg, p, s)}]
 
 Export(dd) ==
   LET cfg == World(dd) IN
@@ -394,6 +403,6 @@ Emit == LET e == Export(d) IN
         IF e.wellformed THEN PrintT(<<"CASE", ToJson(e)>>) ELSE PrintT(<<"SKIP", ToJson(d)>>)
 
 \* the tree itself, exported once
-Tree == [nodes |-> NodeRecs, decl |-> Decl, tagged |-> Tagged, subs |-> Subs, unchecked |-> Unchecked, nodeseq |-> NodeSeq]
+Tree == [mapunchecked |-> MapUnchecked, nodes |-> NodeRecs, decl |-> Decl, tagged |-> Tagged, subs |-> Subs, unchecked |-> Unchecked, nodeseq |-> NodeSeq]
 ASSUME PrintT(<<"TREE", ToJson(Tree)>>)
 =============================================================================
